@@ -2,7 +2,8 @@
 From Coq Require Import ZArith List Bool.
 Import ListNotations.
 Require Import GV.Gen.Consts GV.Model.Outcome GV.Model.J1939 GV.Model.Governor GV.Model.Hcu GV.Model.Object
-  GV.Model.HcuUnit GV.Model.Units GV.Model.Volvo GV.Spec.C08_spec GV.Proofs.C08_proof.
+  GV.Model.HcuUnit GV.Model.Units GV.Model.Volvo GV.Spec.C08_spec GV.Proofs.C08_proof
+  GV.Model.Sched GV.Proofs.Sched_proof.
 Local Open Scope Z_scope.
 
 (* for EVERY history of EEC1 status frames (all 2^64 payloads), engine commands, other commands,
@@ -28,3 +29,36 @@ Theorem C08_governor_envelope : forall sig cmd rpm a, exists e,
   /\ (cmd = NoRequest -> sig = Request -> e_state e = Stopping).
 Proof. exact gov_ok. Qed.
 Print Assumptions C08_governor_envelope.
+
+(* ---- every interleaving (Model/Sched.v): tick = read status; read command (+ age); emit,
+   trigger = read status; store command; emit, in any order with the receive task ---- *)
+(* every frame a cycle puts on the bus is ONE well-formed speed-control frame carrying a governor
+   decision for an accepted command (or none): speed within [800, 2100], a valid state code *)
+Theorem C08_all_schedules_emissions : forall u evs s, vreg_ok s -> vtick_ok u s ->
+  Forall2 (fun e out => e = VTickEmit -> out = [] \/
+             exists code rpm, out = [speed_control (u_sa u) code rpm] /\ 800 <= rpm <= 2100
+                              /\ (code = CODE_NOMINAL \/ code = CODE_STARTING \/ code = CODE_SHUTDOWN))
+          evs (vmrun u s evs).
+Proof. exact vsched_emissions. Qed.
+Print Assumptions C08_all_schedules_emissions.
+(* stop is honoured under every interleaving: a cycle whose second read finds the shutdown command
+   decides on a frame without the start code — the shutdown code when the status it read says
+   running — however stale that status is; the decision cannot change before it is sent *)
+Theorem C08_stop_honoured_all_schedules : forall u s sig,
+  m_tick s = TSig sig -> tx_last (v_ctx (m_v s)) = Some (OEngine engine_off) ->
+  exists code rpm,
+    m_tick (fst (vmstep u s VTickRead2)) = TReady [speed_control (u_sa u) code rpm]
+    /\ code <> CODE_STARTING /\ (e_state sig = Request -> code = CODE_SHUTDOWN).
+Proof. exact vsched_stop_honoured. Qed.
+Print Assumptions C08_stop_honoured_all_schedules.
+Theorem C08_decision_is_what_leaves : forall u s fs,
+  m_tick s = TReady fs ->
+  (forall e, e <> VTickEmit -> m_tick (fst (vmstep u s e)) = TReady fs) /\ snd (vmstep u s VTickEmit) = fs.
+Proof. exact vsched_decision_leaves. Qed.
+Print Assumptions C08_decision_is_what_leaves.
+Theorem C08_sequential_is_a_schedule : forall u evs v now,
+  (forall o, In (VOther o) evs -> forall e, o <> OEngine e) ->
+  concat (vmrun u {| m_v := v; m_now := now; m_tick := TIdle; m_cmd := CIdle |} (flat_map (fun e => vseq_of e u) evs))
+  = concat (volvo_run u v now evs).
+Proof. exact vsched_sequential. Qed.
+Print Assumptions C08_sequential_is_a_schedule.
